@@ -42,7 +42,7 @@ Fixpoint wf_ops (w : world) (pending : list (nat * (nat * nat))) (es : list op) 
            end
            && forallb (fun '(cho, (off, len)) =>
                          bytes_eqb (content w cho) (slice (content w p) (N.to_nat off) (N.to_nat len))
-                         && (N.to_nat off + N.to_nat len <=? length (content w p)))
+                         && Nat.leb (N.to_nat off + N.to_nat len) (length (content w p)))
                       slices
        | None => true
        end) && wf_ops w pending t
